@@ -1104,6 +1104,7 @@ def apply_contract(ex, c, f, args, kwargs):
             env[nm] = f.defaults[i - (len(names) - nd)]
     mod = f.module
     ex.ghost.setdefault('call_args', {})[c.name] = dict(env)
+    ex.ghost.setdefault('call_exc', {})[c.name] = None
     caller = ex.frames[-1].func.qualname if ex.frames and ex.frames[-1].func else '?'
     for i, r in enumerate(c.requires):
         rname = '#%d' % i
@@ -1166,6 +1167,7 @@ def apply_contract(ex, c, f, args, kwargs):
         if ex.check() == z3.unsat:
             raise PathEnd()
         ex.nondet.append(('call:' + c.target, STuple(('raise', cls, exc.fields.get('errno')))))
+        ex.ghost['call_exc'][c.name] = (ename.split(':')[-1], exc.fields.get('errno'))
         raise PyRaise(exc)
     finally:
         ex.ghost['old_env'] = saved_old
